@@ -99,7 +99,7 @@ func zzASGmtRandom(raw *[]byte) uint32 { return 0 }
 //verif:property C06
 //verif:property C15
 //verif:expect-reach end accepted refused
-//verif:bound both entry points (the GMSSL-only one with a universal 16-bit client version); certificates: two static entries / callbacks only / signing certificate static + encryption certificate by callback / one static entry and no callback / none; client suites 0..2 ids symbolic over {ECC-SM4-CBC, ECC-SM4-GCM, a TLS id, unknown}; compression methods 0..2 symbolic bytes; server preference on/off; no session ticket offered
+//verif:bound both entry points (the GMSSL-only one with a universal 16-bit client version); certificates: two static entries / callbacks only / signing certificate static + encryption certificate by callback / one static entry and no callback / none; client suites 0..2 ids symbolic over {ECC-SM4-CBC, ECC-SM4-GCM, ECDHE-SM4-CBC, a TLS id, unknown}; compression methods 0..2 symbolic bytes; server preference on/off; no session ticket offered
 //verif:outside ALPN/NPN/SCT echo; resumption (C16); the random's clock prefix (replaced)
 //verif:stub (*github.com/tjfoc/gmsm/gmtls.Conn).sendAlert zzStubSendAlert08
 //verif:stub (*github.com/tjfoc/gmsm/gmtls.Conn).readHandshake zzASReadHandshake
@@ -125,12 +125,14 @@ func zzH_c06_autoswitch_hello_gm() {
 	case 3:
 		cfg.Certificates = []Certificate{*sig}
 	}
-	ids := []uint16{GMTLS_ECC_SM4_CBC_SM3, GMTLS_ECC_SM4_GCM_SM3, TLS_RSA_WITH_AES_128_CBC_SHA, 0x1234}
+	// (the ECDHE-SM2 suites are in the default list, but the server side of that key exchange is not
+	// implemented: a suite the server can serve is one of the two ECC suites)
+	ids := []uint16{GMTLS_ECC_SM4_CBC_SM3, GMTLS_ECC_SM4_GCM_SM3, TLS_RSA_WITH_AES_128_CBC_SHA, 0x1234, GMTLS_ECDHE_SM4_CBC_SM3}
 	ns := vChoice("nSuites", 3)
 	var offered []uint16
 	common := false
 	for i := 0; i < ns; i++ {
-		id := ids[vInt("suite"+string(rune('0'+i)), 0, 3)]
+		id := ids[vInt("suite"+string(rune('0'+i)), 0, 4)]
 		offered = append(offered, id)
 		common = common || id == GMTLS_ECC_SM4_CBC_SM3 || id == GMTLS_ECC_SM4_GCM_SM3
 	}
@@ -170,7 +172,11 @@ func zzH_c06_autoswitch_hello_gm() {
 		for _, id := range offered {
 			in = in || id == hs.suite.id
 		}
-		vAssert("chosen-suite-offered-by-client-and-supported", in && (hs.suite.id == GMTLS_ECC_SM4_CBC_SM3 || hs.suite.id == GMTLS_ECC_SM4_GCM_SM3))
+		vAssert("chosen-suite-offered-by-client-and-supported", in)
+		// the server must be able to go on with the suite it announces: its side of the key exchange exists
+		cs := &Certificate{Certificate: [][]byte{{1}}, PrivateKey: zzSignKey{&ecdsa.PublicKey{}}}
+		_, kerr := hs.suite.ka(c.vers).generateServerKeyExchange(cfg, cs, enc, ch, hs.hello)
+		vAssert("negotiated-suite-can-be-served", kerr == nil || kerr.Error() == "zz: not used")
 	} else {
 		vReach("refused")
 	}
